@@ -8,3 +8,33 @@ Lemma gen_written : forall gw,
   go_responseWriter_Written gw =
   w_written (mk_writer (T_responseWriter_size gw) (T_responseWriter_directPack gw) (T_responseWriter_internal gw)).
 Proof. intros gw. reflexivity. Qed.
+
+(* edns.ResponseWriter.wireOPTLen, translated from middleware/edns/wire.go (iface_cases for dns.EDNS0,
+   nonnil_pointers: the request OPT is read as present - on the wire branch it is nil, which the code
+   treats as an OPT without options), is the model's [opt_reserve] (Inline.v): the octets the chain
+   appends below the cache, which the cache's size gate adds to the stored body before it compares
+   with the client's ceiling.  Premises = what the inline driver's clients are: no leftover option
+   in the request OPT, a client cookie of the regular length when there is one, a cookie secret
+   that fits the preimage, no NSID, no keepalive (UDP). *)
+From Sdns Require Import C11.Inline.
+Lemma gen_opt_reserve : forall (q : iquery) (w : T_ResponseWriter),
+  T_ResponseWriter_noedns w = negb (iq_edns q) ->
+  T_OPT_Option (T_ResponseWriter_opt w) = [] ->
+  (iq_edns q = true ->
+     orb (negb (go_list_eqb N.eqb (T_ResponseWriter_cookie w) [])) (T_ResponseWriter_hasCookieRaw w) = iq_cookie q) ->
+  andb (negb (T_ResponseWriter_hasCookieRaw w)) (negb (go_len (T_ResponseWriter_cookie w) =? 16)%Z) = false ->
+  (61 + go_len (T_EDNS_cookiesecret (T_ResponseWriter_EDNS w)) <= 256)%Z ->
+  andb (negb (go_list_eqb N.eqb (T_EDNS_nsidstr (T_ResponseWriter_EDNS w)) [])) (T_ResponseWriter_nsid w) = false ->
+  T_ResponseWriter_keepalive w = false ->
+  go_ResponseWriter_wireOPTLen w = (opt_reserve q, true).
+Proof.
+  intros q w Hn Ho Hc Hl Hs Hi Hk.
+  unfold go_ResponseWriter_wireOPTLen, opt_reserve. rewrite Hn, Ho.
+  destruct (iq_edns q); cbn [negb]; [|reflexivity].
+  specialize (Hc eq_refl).
+  cbn [length go_ResponseWriter_wireOPTLen_loop1 go_len Z.of_nat Z.ltb Z.compare].
+  rewrite Hc, Hi, Hk.
+  destruct (iq_cookie q).
+  - rewrite Hl. destruct (Z.ltb_spec 256 (61 + go_len (T_EDNS_cookiesecret (T_ResponseWriter_EDNS w)))); [lia|]. reflexivity.
+  - reflexivity.
+Qed.
